@@ -2,6 +2,7 @@ package props
 
 import (
 	"fmt"
+	"math"
 	"sort"
 
 	"github.com/yaricom/goNEAT/v4/neat"
@@ -61,6 +62,7 @@ type GenomeCfg struct {
 	EnabledOf10  int  // how many genes out of ten are enabled on average (0 = the default of seven)
 	ShuffleMods  bool // list the modules in a generated order (control-node ids and innovation numbers not ascending)
 	Big          bool // one genome in twenty-five is large (up to 40 hidden nodes and 300 genes)
+	LargeNumbers bool // one genome in ten carries node ids up to 2^31-1 and innovation numbers up to 2^63-2
 }
 
 // genGenomeSpec is G-direct: a hand-built well-formed genome.
@@ -91,11 +93,78 @@ func permuteNodeIds(t *rapid.T, s GenomeSpec) GenomeSpec {
 	return s
 }
 
+// enlargeNumbers shifts every node id above a generated pivot, and every innovation number above another pivot, by a large
+// offset (order preserved): the numbers of a long run - node ids are issued from a population-wide 32-bit counter,
+// innovation numbers from a 64-bit one.
+func enlargeNumbers(t *rapid.T, s GenomeSpec) GenomeSpec {
+	maxId := 0
+	for _, n := range s.Nodes {
+		if n.Id > maxId {
+			maxId = n.Id
+		}
+	}
+	for _, m := range s.Modules {
+		if m.Id > maxId {
+			maxId = m.Id
+		}
+	}
+	off := rapid.SampledFrom([]int{0, 250, 32700, 65500, 1 << 24, math.MaxInt32 - maxId}).Draw(t, "node id offset")
+	pivot := rapid.IntRange(0, maxId).Draw(t, "node id pivot")
+	mv := func(id int) int {
+		if id > pivot {
+			return id + off
+		}
+		return id
+	}
+	for i := range s.Nodes {
+		s.Nodes[i].Id = mv(s.Nodes[i].Id)
+	}
+	for i := range s.Genes {
+		s.Genes[i].In, s.Genes[i].Out = mv(s.Genes[i].In), mv(s.Genes[i].Out)
+	}
+	for i := range s.Modules {
+		s.Modules[i].Id = mv(s.Modules[i].Id)
+		for j := range s.Modules[i].Ins {
+			s.Modules[i].Ins[j] = mv(s.Modules[i].Ins[j])
+		}
+		for j := range s.Modules[i].Outs {
+			s.Modules[i].Outs[j] = mv(s.Modules[i].Outs[j])
+		}
+	}
+	var maxInn int64
+	for _, g := range s.Genes {
+		if g.Innov > maxInn {
+			maxInn = g.Innov
+		}
+	}
+	for _, m := range s.Modules {
+		if m.Innov > maxInn {
+			maxInn = m.Innov
+		}
+	}
+	ioff := rapid.SampledFrom([]int64{0, 70000, 1 << 31, 1 << 40, math.MaxInt64 - maxInn - 1}).Draw(t, "innovation offset")
+	ipivot := int64(rapid.IntRange(0, int(maxInn)).Draw(t, "innovation pivot"))
+	for i := range s.Genes {
+		if s.Genes[i].Innov > ipivot {
+			s.Genes[i].Innov += ioff
+		}
+	}
+	for i := range s.Modules {
+		if s.Modules[i].Innov > ipivot {
+			s.Modules[i].Innov += ioff
+		}
+	}
+	return s
+}
+
 func genGenomeSpec(cfg GenomeCfg) *rapid.Generator[GenomeSpec] {
 	return rapid.Custom(func(t *rapid.T) GenomeSpec {
 		s := drawGenomeSpec(t, cfg)
 		if !cfg.SensorsFirst && rapid.IntRange(0, 7).Draw(t, "permute node ids") == 0 {
 			s = permuteNodeIds(t, s)
+		}
+		if cfg.LargeNumbers && rapid.IntRange(0, 9).Draw(t, "large numbers") == 0 {
+			s = enlargeNumbers(t, s)
 		}
 		if err := SpecWellFormed(s); err != nil {
 			panic(fmt.Sprintf("generator bug: G-direct produced a malformed genome: %v\n%s", err, jsonStr(s)))
